@@ -183,6 +183,14 @@ pub fn run() {
                     Ok(Ok(_)) => "ok".to_string(),
                     _ => "err".to_string(),
                 },
+                // the apply of a committed NamingRaftReq::RemoveInstance
+                Some("raftrm") => {
+                    let i = instance_of(&ws[1..]);
+                    match a.send(rnacos::naming::model::actor_model::NamingRaftReq::RemoveInstance(i.get_instance_key())).await {
+                        Ok(Ok(_)) => "ok".to_string(),
+                        _ => "err".to_string(),
+                    }
+                }
                 Some("rmclient") | Some("rmclientc") => {
                     let before = all_instances(&a).await;
                     let cmd = if ws[0] == "rmclient" {
